@@ -237,6 +237,23 @@ fn members(t: &FsTree, o: &ArcOpts) -> Vec<(bool, String)> {
     }
     v
 }
+/// `tar::Builder::append_data` normalises a leading "./" away; real archives (`tar -cf x.tar .`) have it. The member name is
+/// written into the header by hand for names that fit the plain 100-byte field.
+fn append_dot_prefixed(b: &mut tar::Builder<Vec<u8>>, h: &mut tar::Header, path: &str, data: &[u8]) -> bool {
+    let name = format!("./{path}");
+    if name.len() > 99 || h.set_path(path).is_err() {
+        return false;
+    }
+    {
+        let old = h.as_old_mut();
+        old.name = [0; 100];
+        old.name[..name.len()].copy_from_slice(name.as_bytes());
+    }
+    h.set_cksum();
+    b.append(h, data).unwrap();
+    detsim::count("reach.tar_dot_prefixed_member");
+    true
+}
 pub fn build_tar(t: &FsTree, o: &ArcOpts) -> Vec<u8> {
     let mut b = tar::Builder::new(Vec::new());
     for (is_dir, p) in members(t, o) {
@@ -245,8 +262,9 @@ pub fn build_tar(t: &FsTree, o: &ArcOpts) -> Vec<u8> {
         if is_dir {
             h.set_entry_type(tar::EntryType::Directory);
             h.set_size(0);
-            let path = format!("{}{}/", if o.dot_prefix { "./" } else { "" }, p);
-            if b.append_data(&mut h, &path, io::empty()).is_err() {
+            let path = format!("{}/", p);
+            if o.dot_prefix && append_dot_prefixed(&mut b, &mut h, &path, &[]) {
+            } else if b.append_data(&mut h, &path, io::empty()).is_err() {
                 let mut h = tar::Header::new_gnu();
                 h.set_entry_type(tar::EntryType::Directory);
                 h.set_size(0);
@@ -257,8 +275,9 @@ pub fn build_tar(t: &FsTree, o: &ArcOpts) -> Vec<u8> {
             let (path, key) = p.split_once('\u{0}').unwrap();
             let data = &t.files[key];
             h.set_size(data.len() as u64);
-            let path = format!("{}{}", if o.dot_prefix { "./" } else { "" }, path);
-            if b.append_data(&mut h, &path, &data[..]).is_err() {
+            let path = path.to_string();
+            if o.dot_prefix && append_dot_prefixed(&mut b, &mut h, &path, &data[..]) {
+            } else if b.append_data(&mut h, &path, &data[..]).is_err() {
                 // ustar cannot express every long path: fall back to a GNU long-name member
                 let mut h = tar::Header::new_gnu();
                 h.set_mode(0o644);
